@@ -113,7 +113,8 @@ fn run_scenario(sc: &Value, t: &mut Tracer) {
 		} else if ls >= 0 {
 			DEC_PUSHED.load(Ordering::SeqCst) >= 2000
 		} else {
-			stats.dropped.load(Ordering::SeqCst)
+			// all of the audio decoded: the thread has ended, or idles until the sound has finished
+			stats.dropped.load(Ordering::SeqCst) || DEC_WAITS.load(Ordering::SeqCst) >= 1
 		};
 		if done {
 			break;
